@@ -209,6 +209,7 @@ def run(chk):
                         lambda a=is_primary, b=has_label: snippet_section(chk, a, b))
     chk.section("render_diagnostic", lambda: diagnostic_section(chk))
     chk.section("wrap", lambda: wrap_section(chk))
+    chk.section("sourcemap", lambda: sourcemap_section(chk))
     chk.section("bounded", lambda: bounded_section(chk))
     chk.expected_min_obligations = 40
     chk.assumptions += [
@@ -560,3 +561,70 @@ def bounded_section(chk):
     if ks:
         k = chk.bounded_result("known-deviation[word-longer-than-the-line-width-is-split]", False, ks["occurrences"], detail=ks["detail"], witness=ks, func=f"{MOD}:wrap")
         k.replay.update({"script": REPLAY, "input": {"lines": ks["lines"], "diag": ks["diag"], "expect_no_split": True}})
+
+
+def sourcemap_section(chk):
+    """SourceMap.add_file / span_lines (span.py): "within registered source" means the text registered
+    LAST.  add_file(file) stores the current lines of the file (linecache, right-stripped), add_file(file,
+    content) the lines of `content` — whether or not the file was registered before (a module edited and
+    compiled again in one session must be rendered with its new text) — and leaves every other file's
+    entry alone; span_lines returns lines start-prefix .. end of that text."""
+    e = mk_engine(chk)
+    SM = "guppylang_internals.span"
+    e.func_info(SM, "SourceMap.add_file")
+    e.func_info(SM, "SourceMap.span_lines")
+    m = e.module(SM)
+    for before in ("fresh", "registered"):
+        for how in ("linecache", "content"):
+            def t(it, before=before, how=how):
+                e.ext_models["linecache.getlines"] = lambda it2, a, k: ["new line 1  \n", "new line 2\n", "    new line 3\t\n"] if a[0] == "f.py" else ["?"]
+                S = it.lookup_global(m, "SourceMap")
+                sm = it.call(S, [], {})
+                it.getattr(sm, "sources")["other.py"] = ["other"]
+                if before == "registered":
+                    it.getattr(sm, "sources")["f.py"] = ["old line 1", "old line 2"]
+                if how == "linecache":
+                    it.call_method(sm, "add_file", ["f.py"])
+                else:
+                    it.call_method(sm, "add_file", ["f.py", "given 1\ngiven 2  \n"])
+                return dict(it.getattr(sm, "sources"))
+            paths = e.explore(t)
+
+            def post(p, how=how):
+                if p.kind != "return":
+                    return z3.BoolVal(False)
+                want = ["new line 1", "new line 2", "    new line 3"] if how == "linecache" else ["given 1", "given 2  "]
+                return z3.BoolVal(p.value == {"other.py": ["other"], "f.py": want})
+            chk.prove_paths(f"SourceMap.add_file[{before},{how}]:the-file's-entry-is-the-text-registered-now/\\other-files-untouched", paths, post, func=f"{SM}:SourceMap.add_file",
+                            replay=lambda m_: {"script": REPLAY_RELOAD, "input": {}})
+    for sl in range(1, 5):
+        for el in range(sl, 5):
+            for pf in range(0, sl):
+                def t3(it, sl=sl, el=el, pf=pf):
+                    S = it.lookup_global(m, "SourceMap")
+                    sm = it.call(S, [], {})
+                    it.getattr(sm, "sources")["f.py"] = [f"L{i}" for i in range(1, 7)]
+                    Loc = it.lookup_global(m, "Loc")
+                    Sp = it.lookup_global(m, "Span")
+                    sp = it.call(Sp, [it.call(Loc, ["f.py", sl, 0], {}), it.call(Loc, ["f.py", el, 1], {})], {})
+                    return it.call_method(sm, "span_lines", [sp, pf])
+                chk.prove_paths(f"SourceMap.span_lines[{sl}..{el},prefix {pf}]:lines-(start-prefix)..end-of-the-registered-text", e.explore(t3),
+                                lambda p, sl=sl, el=el, pf=pf: z3.BoolVal(p.kind == "return" and p.value == [f"L{i}" for i in range(sl - pf, el + 1)]), func=f"{SM}:SourceMap.span_lines")
+    chk.use_engine(e)
+
+
+REPLAY_RELOAD = r'''
+import os, tempfile, shutil, linecache
+from guppylang_internals.span import SourceMap, Span, Loc
+from guppylang_internals.diagnostic import DiagnosticsRenderer
+d = tempfile.mkdtemp(dir=os.environ.get("TMPDIR", "/var/tmp")); fn = os.path.join(d, "edited.py")
+open(fn, "w").write("def foo(x):\n    return x\n")
+sm = SourceMap(); sm.add_file(fn)
+first = list(sm.sources[fn])
+open(fn, "w").write("import math\n\n\ndef foo(x):\n    return math.floor(x)\n")
+linecache.checkcache(fn)
+sm.add_file(fn)
+second = list(sm.sources[fn])
+shutil.rmtree(d, ignore_errors=True)
+print(json.dumps({"violates": second != ["import math", "", "", "def foo(x):", "    return math.floor(x)"], "after_first_registration": first, "after_second_registration": second}))
+'''
